@@ -1,21 +1,24 @@
 /-
   ZapModel.Theory.Str: kernel-reducible substring test, used by every side condition to
   reject extracted facts that carry the extractor's failure marker "UNRECOGNISED"
-  (`String.splitOn` & co. do not reduce under `decide`).
+  (`String.splitOn` & co. do not reduce under `decide`).  The test runs on the UTF-8 bytes
+  (substring of the byte sequence = substring of the string, UTF-8 being self-synchronising);
+  this is several times faster in the kernel than decoding to `Char`s.
 -/
 namespace Zap.Theory
 
-def isPrefixChars : List Char → List Char → Bool
+def isPrefixBytes : List UInt8 → List UInt8 → Bool
   | [], _ => true
   | _ :: _, [] => false
-  | a :: as, b :: bs => a == b && isPrefixChars as bs
+  | a :: as, b :: bs => a == b && isPrefixBytes as bs
 
-def hasSubChars (p : List Char) : List Char → Bool
+def hasSubBytes (p : List UInt8) : List UInt8 → Bool
   | [] => p.isEmpty
-  | c :: cs => isPrefixChars p (c :: cs) || hasSubChars p cs
+  | c :: cs => isPrefixBytes p (c :: cs) || hasSubBytes p cs
 
 /-- `s` contains `p` as a substring. -/
-def hasSub (p s : String) : Bool := hasSubChars p.toList s.toList
+def hasSub (p s : String) : Bool :=
+  hasSubBytes p.toByteArray.data.toList s.toByteArray.data.toList
 
 /-- The string is an extraction-failure marker (tools/README.md, "Failure policy"). -/
 def unrec (s : String) : Bool := hasSub "UNRECOGNISED" s
@@ -25,5 +28,7 @@ def allRecognised (l : List String) : Bool := l.all (fun s => !unrec s)
 
 example : unrec "SegmentBase.DocID UNRECOGNISED" = true := by decide
 example : unrec "SegmentBase.DocID" = false := by decide
+example : hasSub "refs" "if refs==0 {closeActual}" = true := by decide
+example : hasSub "" "" = true := by decide
 
 end Zap.Theory
